@@ -39,8 +39,14 @@ META = {
             "blanks: binds the rest of the row), `w$`, `*/r$/`: proved for all patterns/rows: matcher = declarative relation "
             "(C07Y_match_iff, C07Y_match_iff_new), key unique, key length, parser returns well-formed patterns that print "
             "back to the text, ignore_case (C07Y_ignore_case; C07X_ignore_case for the first extension, both peculiarities "
-            "included); the removal-command half for the new forms is correspondence-tested only "
-            "(C07Y_reverse_statement is not proved; C07Y_reverse_partial covers embedded PatternX patterns). The shipped "
+            "included); the removal-command half for the new forms is proved too: for every well-formed pattern, negation "
+            "word and key the text-level _make_reverse(...).format(*key) equals the token-level reading (C07Y_reverse, "
+            "C07Y_reverse_template; a glued placeholder keeps its suffix, `w~` keeps w, `w...`/`w$` keep their text), so "
+            "the whole predicate holds of the model (C07Y_holds, guard quirk_free and no inline (?i)); parser after "
+            "printer holds exactly on the parser's normal form (C07Y_parse_print, C07Y_parse_print_iff: yparse_canon is "
+            "necessary and sufficient; the unguarded statement is refuted by C07Y_parse_print_refuted: the text `a ~` is "
+            "read as PatternX reads it, and a last regex word such as `a\\$` after a glued placeholder is taken for a "
+            "`w$` word and rejected, fail closed; the real compile_row_regexp sees one text either way). The shipped "
             "lines it covers are compared with CPython re (direct and negated form, removal template included) on "
             "synthesised rows and mutants. Rule-TEXT entry points: the model of _parse_raw_rule (strip, %params cut, "
             "runs of blanks/tabs collapsed) is proved to return the words of the line joined by single blanks "
@@ -54,7 +60,8 @@ META = {
             "two words, `*` inside a word, an alternation not closed in a group, a lookahead) are listed as unmodelled in the "
             "evidence and excluded from the claim (fail closed). C07X_match_iff / C07X_holds / C07Y_match_iff carry the "
             "guard quirk_free; C07X_bare_group_refuted and C07X_no_boundary_refuted show it is needed. For the new forms of "
-            "the second extension only the matching half of the predicate is proved of the model (C07Y_holds_partial); the "
+            "the second extension both halves of the predicate are proved of the model (C07Y_holds_partial: matching, "
+            "C07Y_holds: matching and removal commands, for rule rows without inline (?i)); the "
             "text-level theorems assume ASCII text whose blanks are space and \\t..\\r (no separators 28..31).",
 }
 
